@@ -15,7 +15,8 @@ import re
 from . import common as C
 
 THEOREMS = ["propagate_lfp", "propagate_order_irrelevant", "flatten_labels_nodup", "block_compile", "segmentation",
-            "flatten_correct", "saved_complete", "flatten_correct_frame", "saved_incomplete_counterexample"]
+            "flatten_correct", "saved_complete", "flatten_correct_frame", "saved_incomplete_counterexample",
+            "erase_correct", "machine_exec_sound", "interp_sound"]
 
 MODV = 1009
 ZERO = 12          # pseudo variable: constant 0
@@ -199,7 +200,12 @@ class Gen:
         default = self.stmts(c2, r.randrange(1, 3)) if r.random() < 0.6 else None
         if default is not None and len(default) == 0:
             default = None
-        return ("W", lab if refs else None, clauses, default)
+        # fallthrough flags (never on the textually last clause)
+        nlast = len(clauses) - 1 if default is None else len(clauses)
+        ft = [i < nlast and r.random() < 0.25 for i in range(len(clauses))]
+        if any(ft):
+            self.count("switch:fallthrough")
+        return ("W", lab if refs else None, clauses, default, ft)
 
     def gen_loop(self, ctx):
         r = self.rng
@@ -404,11 +410,22 @@ def enc_stmt(g, s, blocking_fn):
         return ["L", lab(s[1]), lab(s[2])] + post + enc_list(g, s[4], blocking_fn)
     if k == "W":
         # switch { case c1: b1 ... default: d }  →  sw (ite c1 b1 (ite c2 b2 (default)))
+        # astrewrite simplifyCaseClauses: a clause ending in `fallthrough` gets the following bodies appended
+        bodies = [list(b) for _, b in s[2]] + ([list(s[3])] if s[3] is not None else [])
+        ft = list(s[4]) + ([False] if s[3] is not None else [])
+        eff = []
+        for i in range(len(bodies)):
+            acc = list(bodies[i])
+            j = i
+            while ft[j]:
+                j += 1
+                acc += bodies[j]
+            eff.append(acc)
+
         def chain(i):
             if i == len(s[2]):
-                return enc_default(g, s[3], blocking_fn)
-            c, b = s[2][i]
-            return ["I", str(c)] + enc_list(g, b, blocking_fn) + chain(i + 1)
+                return enc_default(g, eff[i] if s[3] is not None else None, blocking_fn)
+            return ["I", str(s[2][i][0])] + enc_list(g, eff[i], blocking_fn) + chain(i + 1)
         return ["W", lab(s[1])] + chain(0)
     raise AssertionError(k)
 
@@ -633,9 +650,11 @@ class Render:
             if s[1] is not None:
                 self.emit(ind - 1 if ind > 0 else 0, "L%d:" % s[1])
             self.emit(ind, "switch {")
-            for c, b in s[2]:
+            for i, (c, b) in enumerate(s[2]):
                 self.emit(ind, "case %s:" % self.cond(c))
                 self.block(b, ind + 1)
+                if s[4][i]:
+                    self.emit(ind + 1, "fallthrough")
             if s[3] is not None:
                 self.emit(ind, "default:")
                 self.block(s[3], ind + 1)
@@ -967,7 +986,7 @@ def run(tier, seed):
                        "V8/Node and the native Go toolchain behave per their specifications"]
     C.build_gvh("gvh_c02")
     chk.proof = C.check_proofs("C02", THEOREMS, tier)
-    nprog = 30 if tier == "quick" else 260
+    nprog = 30 if tier == "quick" else 160
     progs_ = []
     while len(progs_) < nprog:
         g = gen_program(chk.rng, chk.rng.choice([6, 10, 16, 24]))
